@@ -27,8 +27,10 @@ func (vc *VC) sortForHeap(name string) (string, bool) {
 		return s, true
 	}
 	switch name {
-	case "alloc", "#chan.closed":
+	case "alloc", "Gh.chan.closed":
 		return allocSort, true
+	case "Gh.iter.seen.Int":
+		return "(Array Int (Array Int Bool))", true
 	}
 	d, ok := vc.eng.heapDescs[name]
 	if !ok {
@@ -165,6 +167,17 @@ func (eng *Engine) instrEffects(ins ssa.Instruction, out map[string]bool, in *ss
 		eng.callEffects(&x.Call, out, in)
 	case *ssa.Defer:
 		eng.callEffects(&x.Call, out, in)
+	case *ssa.Range:
+		if mt, ok := x.X.Type().Underlying().(*types.Map); ok {
+			out["alloc"] = true
+			out["Gh.iter.seen."+sanitize(sortNameOfKey(mt.Key()))] = true
+		}
+	case *ssa.Next:
+		if rng, ok := x.Iter.(*ssa.Range); ok {
+			if mt, ok := rng.X.Type().Underlying().(*types.Map); ok {
+				out["Gh.iter.seen."+sanitize(sortNameOfKey(mt.Key()))] = true
+			}
+		}
 	case *ssa.Go:
 		// not followed
 	case *ssa.Send, *ssa.Select:
@@ -194,7 +207,7 @@ func (eng *Engine) callEffects(c *ssa.CallCommon, out map[string]bool, in *ssa.F
 		case "delete":
 			eng.mapHeapsEff(c.Args[0].Type().Underlying().(*types.Map), out, false)
 		case "close":
-			out["#chan.closed"] = true
+			out["Gh.chan.closed"] = true
 		}
 	case *ssa.Function:
 		for h := range eng.effects(callee) {
@@ -515,7 +528,7 @@ func (eng *Engine) modItemHeaps(it ModItem, names []string, ts []types.Type, pkg
 	}
 	if sel.Ghost {
 		if g := eng.cs.Ghosts[sel.Name]; g != nil {
-			out["#."+g.Owner+"."+g.Name] = true
+			out["Gh."+g.Owner+"."+g.Name] = true
 			return
 		}
 		out["*"] = true
@@ -565,4 +578,25 @@ func (eng *Engine) modItemHeaps(it ModItem, names []string, ts []types.Type, pkg
 			cur = ft
 		}
 	}
+}
+
+// sortNameOfKey: SMT sort name of a map key type (scalar keys only).
+func sortNameOfKey(t types.Type) string {
+	switch u := t.Underlying().(type) {
+	case *types.Basic:
+		if u.Info()&types.IsBoolean != 0 {
+			return "Bool"
+		}
+		if u.Info()&types.IsFloat != 0 {
+			return "Real"
+		}
+		return "Int"
+	case *types.Interface:
+		return "Iface"
+	case *types.Slice:
+		return "Slice"
+	case *types.Struct:
+		return "S." + structKey(t)
+	}
+	return "Int"
 }
